@@ -1098,4 +1098,3 @@ package whispertool
 //@ func ParseTimestamp
 //@   props C19 C12 C16
 //@   ensures kind: result1 == nil || isother(result1)
-//@   ensures zero: result1 != nil ==> result0 == 0
